@@ -681,6 +681,7 @@ pub fn replay_bounded(unit: &str) -> Option<i32> {
         "b_generate_constructed" => run_grid(unit, contract_generate_constructed, limit),
         "b_c04_component_bounds" => run_grid(unit, contract_generate_component_bounds, limit),
         "b_generate_enumerated" => run_grid(unit, contract_generate_enumerated, limit),
+        "b_c05_extension_group" => run_grid(unit, contract_generate_extension_group, limit),
         "b_c04_assignment_bounds" => run_grid(unit, contract_generate_assignment_bounds, limit),
         "b_c07_pipeline_values" => run_grid(unit, contract_pipeline_value_assignments, limit),
         "b_c03_tag_parser" => run_grid(unit, contract_tag_parser, limit),
@@ -2480,8 +2481,15 @@ pub fn contract_value_rendering<C: Ctx>(cx: &mut C) {
 pub fn contract_pipeline_value_assignments<C: Ctx>(cx: &mut C) {
     #[cfg(not(kani))]
     {
-        let kind = cx.choose(10);
+        let kind = cx.choose(13);
         let (decl, want): (String, String) = match kind {
+            10 => { let alt = cx.choose(2); let n = [0i128, 5, -7][cx.choose(3)];
+                    (format!("Ch ::= CHOICE {{ num INTEGER, flag BOOLEAN }} v Ch ::= {}", if alt == 0 { format!("num:{n}") } else { "flag:TRUE".to_string() }),
+                     if alt == 0 { format!("Ch :: num (Integer :: from ({}i128))", if n < 0 { format!("- {}", -n) } else { n.to_string() }) } else { "Ch :: flag (true)".to_string() }) }
+            11 => { let written = cx.any_bool(); let a = [5i128, 300][cx.choose(2)];
+                    (format!("Pp ::= SEQUENCE {{ a INTEGER, b BOOLEAN DEFAULT TRUE }} v Pp ::= {{ a {a}{} }}", if written { ", b FALSE" } else { "" }), format!("Pp :: new (Integer :: from ({a}i128) , {})", !written)) }
+            12 => { let n = cx.choose(4); let items: Vec<bool> = (0..n).map(|_| cx.any_bool()).collect();
+                    (format!("v SEQUENCE OF BOOLEAN ::= {{ {} }}", items.iter().map(|b| if *b { "TRUE" } else { "FALSE" }).collect::<Vec<_>>().join(", ")), format!("alloc :: vec ! [{}]", items.iter().map(|b| b.to_string()).collect::<Vec<_>>().join(" , "))) }
             0 => { let b = cx.any_bool(); (format!("v BOOLEAN ::= {}", if b { "TRUE" } else { "FALSE" }), format!("pub const V : bool = {b} ;")) }
             1 => ("v NULL ::= NULL".into(), "pub const V : () = () ;".into()),
             2 => { let n = [0i128, 1, -1, -42, 255, 256, -129, 4294967296, 170141183460469231731687303715884105727, -170141183460469231731687303715884105728][cx.choose(10)];
@@ -2555,6 +2563,48 @@ pub fn contract_generate_assignment_bounds<C: Ctx>(cx: &mut C) {
         } else {
             vob!(cx, "C04.generate.assignment_annotation_is_the_constraint_range", generated.contains(&want));
         }
+    }
+    #[cfg(kani)]
+    { let _ = cx; }
+}
+
+
+/// C05 / C02 — emission of an extension-addition group (Rasn::format_sequence_or_set_members + the hoisted group type):
+/// ONE optional member marked extension_addition_group whose type contains exactly the grouped components in order.
+pub fn contract_generate_extension_group<C: Ctx>(cx: &mut C) {
+    #[cfg(not(kani))]
+    {
+        use crate::intermediate::types::*;
+        use crate::generator::Backend;
+        use std::{cell::RefCell, rc::Rc};
+        let set = cx.any_bool();
+        let n_root = cx.choose(3);
+        let g = 1 + cx.choose(3);           // components in the group
+        let after = cx.any_bool();          // a plain addition after the group
+        let b = |name: String, optional: bool| SequenceOrSetMember { name, tag: None, ty: ASN1Type::Boolean(Boolean { constraints: vec![] }), optionality: if optional { Optionality::Optional } else { Optionality::Required }, is_recursive: false, constraints: vec![] };
+        let mut members: Vec<SequenceOrSetMember> = (0..n_root).map(|i| b(format!("r{i}"), false)).collect();
+        let group = SequenceOrSet { components_of: vec![], extensible: None, constraints: vec![], members: (0..g).map(|i| b(format!("g{i}"), i % 2 == 1)).collect() };
+        members.push(SequenceOrSetMember { name: "ext_group_g0".into(), tag: None, ty: ASN1Type::Sequence(group), optionality: Optionality::Required, is_recursive: false, constraints: vec![] });
+        if after { members.push(b("z".into(), true)); }
+        let s = SequenceOrSet { components_of: vec![], extensible: Some(n_root), constraints: vec![], members };
+        cx.describe(|| format!("T ::= {} {{ {n_root} root components, ..., [[ {g} components ]]{} }}", if set { "SET" } else { "SEQUENCE" }, if after { ", z BOOLEAN OPTIONAL" } else { "" }));
+        let h = Rc::new(RefCell::new(ModuleHeader { name: "M".into(), module_identifier: None, encoding_reference_default: None, tagging_environment: TaggingEnvironment::Automatic, extensibility_environment: ExtensibilityEnvironment::Explicit, imports: vec![], exports: None }));
+        let tld = ToplevelDefinition::Type(ToplevelTypeDefinition { comments: String::new(), tag: None, name: "T".into(), ty: if set { ASN1Type::Set(s) } else { ASN1Type::Sequence(s) }, parameterization: None, module_header: Some(h) });
+        let mut backend = crate::generator::rasn::Rasn::default();
+        let generated = match backend.generate_module(vec![tld]) { Ok(m) if m.warnings.is_empty() => m.generated.unwrap_or_default(), _ => { vob!(cx, "C05.generate.type_with_extension_group_is_generated", false); return; } };
+        let Some((_, fields)) = item_of(&generated, "T") else { vob!(cx, "C05.generate.type_with_extension_group_is_generated", false); return; };
+        vob!(cx, "C02.generate.group_is_one_member", fields.len() == n_root + 1 + after as usize);
+        if fields.len() != n_root + 1 + after as usize { return; }
+        let gf = &fields[n_root];
+        vob!(cx, "C05.generate.group_member_is_an_optional_extension_addition_group", gf.contains("extension_addition_group") && gf.contains(": Option <"));
+        let mut plain_ok = true;
+        for (i, f) in fields.iter().enumerate() { if i != n_root { plain_ok = plain_ok && !f.contains("extension_addition_group") && (f.contains("extension_addition") == (i > n_root)); } }
+        vob!(cx, "C05.generate.only_the_group_is_marked_as_group", plain_ok);
+        // the type the group member refers to holds exactly the grouped components, in order
+        let ty_name = gf.rsplit(':').next().unwrap_or("").replace("Option <", "").replace('>', "").trim().to_string();
+        let inner = item_of(&generated, &ty_name);
+        let want: Vec<String> = (0..g).map(|i| if i % 2 == 1 { format!("pub g{i} : Option < bool >") } else { format!("pub g{i} : bool") }).collect();
+        vob!(cx, "C05.generate.group_type_holds_exactly_the_grouped_components_in_order", matches!(&inner, Some((_, fs)) if *fs == want));
     }
     #[cfg(kani)]
     { let _ = cx; }
